@@ -8,7 +8,6 @@ import (
 	"testing"
 	"time"
 
-	"github.com/privacybydesign/gabi"
 	"github.com/privacybydesign/gabi/big"
 	"github.com/privacybydesign/gabi/gabikeys"
 	"github.com/privacybydesign/gabi/keyproof"
@@ -180,9 +179,9 @@ func execC16(r *kernel.Run, s C16Spec) {
 	panicked, deadlock := kernel.InBubbleLeaky(r.T, func() {
 		sc = kernel.NewBSched(sched, s.LibSeed, buggify, nil, prevReader)
 		cryptorand.Reader = sc
-		gabi.VerifInstallHooks(gabi.VerifHooks{Yield: sc.Yield, Spawned: sc.Spawned, Exited: sc.Exited, Buggify: sc.BuggifyAt})
+		setHooks(&hookSet{yield: sc.Yield, spawned: sc.Spawned, exited: sc.Exited, buggify: sc.BuggifyAt})
 		defer func() {
-			gabi.VerifInstallHooks(gabi.VerifHooks{})
+			setHooks(nil)
 			cryptorand.Reader = prevReader
 		}()
 		for i := range s.Bits {
@@ -280,12 +279,12 @@ func execC16Free(r *kernel.Run, s C16Spec) {
 	kernel.SeedLibrary(r.T, s.LibSeed)
 	before := libGoroutines()
 	stall := time.Duration(s.StallMs) * time.Millisecond
-	gabi.VerifInstallHooks(gabi.VerifHooks{Yield: func(site string) {
+	setHooks(&hookSet{yield: func(site string) {
 		if site == "generateSafePrimePair:before-close-stop" || site == "findSafePrime:before-stop" {
 			time.Sleep(stall) // slow consumer: workers keep producing into the results buffer
 		}
 	}})
-	defer gabi.VerifInstallHooks(gabi.VerifHooks{})
+	defer setHooks(nil)
 	r.Fault("stalled-consumer")
 	base := gabikeys.BaseParameters{LePrime: 120, Lh: 256, Lm: 256, Ln: 128, Lstatzk: 80}
 	params := &gabikeys.SystemParameters{BaseParameters: base, DerivedParameters: gabikeys.MakeDerivedParameters(base)}
